@@ -243,18 +243,27 @@ class LoopMixin:
             # loop-carried scalars
             saved = {}
             rec_vars = {v: sname for sname, (_, v) in recorded.items()}
+            invariant = self.invariant_state(st, body, frame, state, idx, lo, elem, carried, rec_vars)
+            rec.invariant = dict(invariant)
             for name in carried:
                 cur = frame.lookup(name)
                 if cur is None:
                     continue
+                if name in invariant:
+                    continue   # keeps its value: checked again at the end of the body on every path
                 if name in rec_vars:
                     sr = state["series"][rec_vars[name]]
                     self._set_var(frame, name, self.series_read(sr, Rat.atom(idx) - lo + (len(sr.init) - 1), frame, st))
                     continue
                 saved[name] = cur
                 rec.carried_before[name] = cur
-                if isinstance(cur, Num):
-                    ph = Num(Rat.sym("#acc.%s" % name, ("bound",)))
+                # the value the variable has at the head of iteration k: an inductive element name[k], as for a list that is
+                # indexed (so `cur = f(cur)` and `xs.append(f(xs[k]))` have the same normal form)
+                if isinstance(cur, (Num, TupV, ObjV)) and not (isinstance(cur, ObjV) and cur.cls is None):
+                    try:
+                        ph = self.inductive_like(cur, "%s[k]" % name)
+                    except Unmodelled:
+                        ph = Opaque("loop-carried %s" % name)
                 else:
                     ph = Opaque("loop-carried %s" % name)
                 rec.placeholders[name] = ph
@@ -271,6 +280,13 @@ class LoopMixin:
                 self.ctx.unrolled = saved_unrolled
             for sname, (stx, vname) in recorded.items():
                 self.series_append(state["series"][sname], frame.lookup(vname), frame, stx)
+            for name, before_key in invariant.items():
+                try:
+                    same = key_equiv(val_key(frame.lookup(name)), before_key)
+                except Unmodelled:
+                    same = False
+                if not same:
+                    raise Unmodelled("loop variable %s keeps its value on one path and changes on another at %s" % (name, frame.loc(st)))
             self.ctx.assumptions.add("loop at %s executes at least once (its body is analysed as the inductive step)"
                                      % frame.loc(st))
             # close series
@@ -283,10 +299,21 @@ class LoopMixin:
             for name, before in saved.items():
                 after = frame.lookup(name)
                 rec.carried_after[name] = after
-                if isinstance(before, Num) and isinstance(after, Num):
-                    acc = poly.T.sym("#acc.%s" % name)
+                ph = rec.placeholders.get(name)
+                if isinstance(before, Num) and isinstance(after, Num) and isinstance(ph, Num) and ph.r.single_atom() is not None:
+                    acc = ph.r.single_atom()
                     delta = after.r - Rat.atom(acc)
-                    if acc.id in delta.deps():
+                    others = set()
+                    for n2, p2 in rec.placeholders.items():
+                        if n2 != name:
+                            lv = []
+                            self.leaves(p2, lv, "")
+                            for _, x in lv:
+                                if isinstance(x, Rat):
+                                    others |= x.atom_ids()
+                    state_dep = any(poly.T.get(i).kind == "sym" and "[k]" in poly.T.get(i).name for i in delta.deps() if i != acc.id) \
+                        or bool(delta.deps() & others)
+                    if acc.id in delta.deps() or state_dep:
                         self._set_var(frame, name, Opaque("loop-carried %s (non-additive)" % name))
                     else:
                         if poly.mentions(delta, idx):
@@ -306,6 +333,99 @@ class LoopMixin:
                     self._set_var(frame, name, Opaque("value of loop-local %s after the loop" % name))
         finally:
             self.release_bound()
+
+    def invariant_state(self, st, body, frame, state, idx, lo, elem, carried, rec_vars):
+        """Loop-carried variables that the body re-assigns to the value they already have (a unified driver that treats a
+        constant as formal state: `T = next_T(...)` with next_T returning the constant).  Found by a trial execution of the
+        body that records nothing; every real path re-checks it.  {name: key of the value}"""
+        cands = {}
+        for name in carried:
+            cur = frame.lookup(name)
+            if name in rec_vars or cur is None or not isinstance(cur, (Num, ObjV, TupV)):
+                continue
+            try:
+                cands[name] = val_key(cur)
+            except Unmodelled:
+                continue
+        if not cands or getattr(self.ctx, "dry", None) is not None:
+            return {}
+        ctx = self.ctx
+        snap_env = dict(frame.env)
+        snap = (len(ctx.events), len(ctx.calls), len(ctx.loops), dict(ctx.facts), set(ctx.assumptions), ctx.bound_depth,
+                getattr(ctx, "unrolled", 0), list(ctx.loop_stack))
+        ser = {n: (len(s.appended), s.elem_k, list(getattr(s, "append_nodes", []))) for n, s in state["series"].items()}
+        placeholders = {}
+        result = None
+        script = []
+        try:
+            for attempt in range(12):
+                ctx.dry = {"script": list(script), "pos": 0}
+                frame.env.clear()
+                frame.env.update(snap_env)
+                for n, s in state["series"].items():
+                    del s.appended[ser[n][0]:]
+                    s.elem_k = ser[n][1]
+                for name in carried:
+                    cur = frame.lookup(name)
+                    if cur is None or name in rec_vars:
+                        continue
+                    if isinstance(cur, (Num, TupV, ObjV)):
+                        try:
+                            ph = self.inductive_like(cur, "%s[k]" % name)
+                        except Unmodelled:
+                            ph = Opaque("loop-carried %s" % name)
+                    else:
+                        ph = Opaque("loop-carried %s" % name)
+                    placeholders[name] = ph
+                    if name not in cands:
+                        self._set_var(frame, name, ph)
+                self.assign(st.target, elem, frame)
+                ctx.loop_stack.append(dict(state, dry=True))
+                try:
+                    self.exec_block(body, frame)
+                    result = {n: frame.lookup(n) for n in cands}
+                    break
+                except RaiseSignal:
+                    # this trial path leaves the loop: flip the last scripted decision and try another path
+                    script = list(ctx.dry["script"][:ctx.dry["pos"]])
+                    while script and script[-1] is False:
+                        script.pop()
+                    if not script:
+                        break
+                    script[-1] = False
+                except (ReturnSignal, Unmodelled, BreakSignal):
+                    break
+                finally:
+                    ctx.loop_stack.pop()
+        finally:
+            ctx.dry = None
+            frame.env.clear()
+            frame.env.update(snap_env)
+            del ctx.events[snap[0]:]
+            del ctx.calls[snap[1]:]
+            del ctx.loops[snap[2]:]
+            ctx.facts.clear()
+            ctx.facts.update(snap[3])
+            ctx.assumptions.clear()
+            ctx.assumptions.update(snap[4])
+            ctx.bound_depth = snap[5]
+            ctx.unrolled = snap[6]
+            ctx.loop_stack[:] = snap[7]
+            for n, s in state["series"].items():
+                del s.appended[ser[n][0]:]
+                s.elem_k = ser[n][1]
+                if hasattr(s, "append_nodes"):
+                    s.append_nodes = ser[n][2]
+        if result is None:
+            return {}
+        out = {}
+        for n, k in cands.items():
+            try:
+                if key_equiv(val_key(result[n]), k):
+                    out[n] = k
+            except Unmodelled:
+                pass
+        return out
 
     def _set_var(self, frame, name, v):
         f = frame
